@@ -36,11 +36,11 @@ PLAN = {
     "C02": dict(
         title="Each layer's forward pass computes its defining operator",
         level="proof",
-        verus=["C02_convolve.rs", "C02_deconv_forward.rs", "C02_maxpool_forward.rs", "C02_pad3d.rs", "C17_loopback.rs"],
+        verus=["C02_convolve.rs", "C02_deconv_forward.rs", "C02_maxpool_forward.rs", "C02_pad3d.rs", "C17_network_forward.rs"],
         kani=True,
         undecided_clauses=["max-pool: inputs are required to be above f32::MIN (the scan's start value); an element equal to f32::MIN in a 1x1 window would "
                            "record index (0,0)",
-                           "dense W x + b is a bounded Kani harness (2->2); Network::_forward = chained application of a layer range is proved (unit network._forward); that Network::forward calls it once per layer with the previous output (plus skip / loop handling, C16 / C17) is read",
+                           "dense W x + b is a bounded Kani harness (2->2); a network's prediction = composition of its layers is proved at the level of abstract layer functions (units network._forward and network.forward: fold over the layers, with skip / loop handling)",
                            "the glue inside Convolution/Deconvolution/Maxpool::forward around the verified kernels (activation call, flatten flag) is by program order"],
     ),
     "C08": dict(
@@ -148,7 +148,7 @@ PLAN = {
     "C16": dict(
         title="Skip connections combine source and target inputs as configured",
         level="proof",
-        verus=["C16_connect.rs", "C16_skip_forward.rs", "C16_skip_backward.rs"],
+        verus=["C16_connect.rs", "C17_network_forward.rs", "C16_skip_backward.rs"],
         kani=True,
         undecided_clauses=["the gradient clause: the reverse step of Network::backward is proved to differentiate every layer at the input it processed "
                            "and to sum the gradients of all outgoing additive connections (unit network.backward.walk); that this sum IS the derivative is "
@@ -160,15 +160,15 @@ PLAN = {
     "C17": dict(
         title="Loop connections compute the accumulated repeated sub-network",
         level="proof",
-        verus=["C17_loopback.rs"],
+        verus=["C17_network_forward.rs", "C16_connect.rs"],
         kani=False,
         undecided_clauses=[
             "tensors, shapes and each layer's forward pass are abstract (what a layer computes is C02, the element-wise meaning of "
             "add/sub/mul/mean is C15, reshape is C14)",
             "the max-pool index bookkeeping of the block (five `if let Some(Some(max)) = maxpools.get_mut(j)` statements and the Mean arm's "
             "`fmax` collection) is dropped from the unit after a syntactic non-interference scan; a panic inside it is a permitted outcome",
-            "where the block sits in Network::forward (layers 0..=i have run, so preactivated has i+1 and activated i+2 entries) and that "
-            "Network::loopback only records into <= outof with matching shapes: read, not verified",
+            "the shape comparison and the per-layer `loops` / `scale` bookkeeping in the middle of Network::loopback are not part of the "
+            "verified regions (guard + insert are: into <= outof is recorded, nothing replaced); that only connect() / loopback() write the tables: read",
             "the 'equals the plain network with the range repeated k+1 times' sentence is the Overwrite instance of the proved contract "
             "(last pass = k+1-fold application, each pass starting from the previous pass's output); the plain network is not built and compared"],
     ),
@@ -367,7 +367,12 @@ MANIFEST_TEXT = {
              "(from the ordinary output for t = 0) brought to the input shape of layer `into` and with the ORIGINAL input of that layer added iff "
              "input skips are on, and leaves in activated[p] (in particular the value passed on, p = i+1) and preactivated the configured "
              "accumulation - add / subtract / multiply folds in pass order, mean over all, overwrite = last pass - of the ordinary value with the k "
-             "re-run values; entries before the range are untouched, lengths unchanged, nothing happens without a loop connection.",
+             "re-run values; entries before the range are untouched, lengths unchanged, nothing happens without a loop connection; (3) the WHOLE "
+             "Network::forward, with the skip region and the loop-back region replaced by calls to the two verified region functions (//@outline: a "
+             "caller is checked against the callee's contract): the returned pre-activations and activations are the fold over the layers of "
+             "(skip-combine the previous activation; apply the layer; apply the loop connection leaving it), so every region's precondition holds where "
+             "it sits and the prediction is that fold's last activation; (4) Network::loopback records (into, iterations, inskips) with into <= outof "
+             "and replaces nothing.",
         note="abstract tensor algebra (uninterpreted t_add/t_sub/t_mul/t_mean/t_reshape, layer forward functions); vstd HashMap / Vec specs; "
              "max-pool index bookkeeping dropped from the unit (scanned); a panic is a permitted outcome (R13).",
     ),
